@@ -103,8 +103,29 @@ def _sibling_candidates(rng, recipe):
             out.append(("%s.nblocks+1" % o, mod(nblocks=op["nblocks"] + 1)))
         if o == "drop_duplicates" and op.get("subset") and len(op["subset"]) > 1:
             out.append(("drop_duplicates subset shorter", mod(subset=op["subset"][:1])))
+        if o == "nlargest":
+            out.append(("nlargest.n+1", mod(n=op["n"] + 1)))
+            out.append(("nlargest<->nsmallest", mod(fn={"nlargest": "nsmallest", "nsmallest": "nlargest"}[op["fn"]])))
+        if o == "loc_slice":
+            out.append(("loc hi+1", mod(hi=op["hi"] + 1)))
+        if o == "where":
+            out.append(("where other+1", mod(other=op["other"] + 1)))
+            out.append(("where<->mask", mod(mode={"where": "mask", "mask": "where"}[op["mode"]])))
+        if o == "round":
+            out.append(("round decimals+1", mod(decimals=op["decimals"] + 1)))
+        if o == "quantile":
+            out.append(("quantile q", mod(q={0.25: 0.5, 0.5: 0.9, 0.9: 0.25}.get(op["q"], 0.5))))
+        if o == "frame_isin":
+            out.append(("isin values", mod(values=list(op["values"]) + [3])))
+        if o == "dt_attr":
+            out.append(("dt attr", mod(attr={"day": "month", "month": "day", "dayofweek": "day", "year": "month"}[op["attr"]])))
+        if o == "sample" and "rs_seed" in op:
+            out.append(("sample seed+1", mod(rs_seed=op["rs_seed"] + 1)))
+        if o == "groupby_agg" and op.get("fn") in ("var", "std"):
+            out.append(("groupby var<->std", mod(fn={"var": "std", "std": "var"}[op["fn"]])))
         if o == "project" and len(op["columns"]) > 1:
             out.append(("project order", mod(columns=list(reversed(op["columns"])))))
+    n_param = len(out)
     for tname, t in sorted(recipe["tables"].items()):
         r = copy.deepcopy(recipe)
         col = rng.choice(sorted(t["cols"]))
@@ -119,7 +140,13 @@ def _sibling_candidates(rng, recipe):
             names = list(t["cols"])
             r["tables"][tname]["cols"] = {k: t["cols"][k] for k in reversed(names)}
             out.append(("column order of %s" % tname, r))
+    params, data = out[:n_param], out[n_param:]
+    rng.shuffle(params)
     rng.shuffle(out)
+    # the first slot goes to a parameter-level change if there is one (one operand of one operation differs: the
+    # case a name that ignores an operand collides on); the shuffled rest follows
+    if params:
+        out = [params[0]] + [x for x in out if x is not params[0]]
     return out
 
 
@@ -134,6 +161,9 @@ def generate(run_seed, tier):
         if rw.random() < 0.5:
             # wider operator coverage (where/mask, loc, nlargest, accessors, melt, combine_first, ...)
             fams += rw.sample(list(W.EXTENDED_FAMILIES), rw.randint(2, len(W.EXTENDED_FAMILIES)))
+        if rw.random() < 0.5:
+            # operations whose parameters travel as keyword dictionaries inside the expression (ddof, split_every, ...)
+            fams += ["reduce", "reduce", "groupby"]
         refw = reference_world()
 
         def ref_compute(coll):
